@@ -307,7 +307,7 @@ pub fn check(tier: Tier) -> i32 {
         }
     }
     replay_corpus::<C07Case, _>(&ctx, run_case);
-    drive(&ctx, "main", tier.pick(2000, 30000), case_strategy, run_case);
+    drive(&ctx, "main", tier.pick(5000, 50000), case_strategy, run_case);
     cleanup_process_scratch();
     ctx.finish(
         "exploration",
